@@ -664,6 +664,14 @@ class Engine(object):
                 return a.z == b.z
             raise Unsupported("== between opaque value and %r" % (b,))
         if isinstance(a, SList):
+            if isinstance(b, SList):
+                # extensional equality: same length and pointwise equal (decided syntactically when both
+                # sides share their element function, as after copy / append)
+                j = z3.Int(S.fresh_name("eqj"))
+                inner = self.sym_eq(a.get(j), b.get(j))
+                inner = z3.BoolVal(inner) if isinstance(inner, bool) else inner
+                return z3.simplify(z3.And(a.length == b.length,
+                                          z3.ForAll([j], z3.Implies(z3.And(0 <= j, j < a.length), inner))))
             raise Unsupported("== on symbolic list")
         # both concrete at top level
         if isinstance(a, (list, tuple)) and type(a) is type(b):
